@@ -1,4 +1,6 @@
 import SuxModel.BitFieldVec.CopyLemmas
+import SuxModel.BitFieldVec.ApplyLemmas
+import SuxModel.BitFieldVec.ChunkLemmas
 /-!
 # C10 — bulk operations of `BitFieldVec` equal their documented element-by-element definitions
 
@@ -62,6 +64,71 @@ example : ∃ d', copy 8 exSrc 2 exDst 1 20 = .ok d' ∧ d'.Inv 8 ∧
     d'.vals 8 = (exDst.vals 8).take 1 ++ ((exSrc.vals 8).drop 2).take 8 ++ (exDst.vals 8).drop 9 :=
   copy_vals 8 (by decide) exSrc exDst exSrc_inv exDst_inv rfl 2 1 20 (by decide) (by decide)
     (Or.inl (by decide))
+end NonVacuity
+
+/-! ## (2) `apply_in_place` -/
+
+/-- `apply_in_place(f)` with a stateful callback: the callback state and the stored values are those
+of `mapAccum f` over the current values, i.e. `f` is called exactly once per element, in index
+order, on the current value, and each result is stored; bits at or beyond `len * bw` are untouched.
+
+`hdiv` is forced by the power-of-two path, which assumes that a power-of-two width divides the word
+size; it holds for every real word type (`apply_correct_pow2`), and the statement is false without
+it (see the `example` below: `W = 12`, `bw = 8`). -/
+theorem apply_correct {σ : Type} (W : Nat) (hW : 0 < W) (s : St) (h : s.Inv W)
+    (f : σ → Nat → σ × Nat) (st : σ) (hf : ∀ st x, (f st x).2 < 2 ^ s.bw)
+    (hdiv : isPow2 s.bw = true → s.bw ∣ W) :
+    ∃ s', applyInPlace W s f st = .ok (s', (mapAccum f (s.vals W) st).2) ∧ s'.Inv W ∧
+      s'.len = s.len ∧ s'.bw = s.bw ∧ s'.words.size = s.words.size ∧
+      s'.vals W = (mapAccum f (s.vals W) st).1 ∧
+      ∀ k, s.len * s.bw ≤ k → bitAt W s'.words k = bitAt W s.words k :=
+  apply_correct' W hW s h f st hf hdiv
+
+/-- the same for the word sizes that exist (`W = 2^e`: 8, 16, 32, 64, 128), no side condition -/
+theorem apply_correct_pow2 {σ : Type} (e : Nat) (s : St) (h : s.Inv (2 ^ e))
+    (f : σ → Nat → σ × Nat) (st : σ) (hf : ∀ st x, (f st x).2 < 2 ^ s.bw) :
+    ∃ s', applyInPlace (2 ^ e) s f st = .ok (s', (mapAccum f (s.vals (2 ^ e)) st).2) ∧
+      s'.Inv (2 ^ e) ∧ s'.len = s.len ∧ s'.bw = s.bw ∧ s'.words.size = s.words.size ∧
+      s'.vals (2 ^ e) = (mapAccum f (s.vals (2 ^ e)) st).1 ∧
+      ∀ k, s.len * s.bw ≤ k → bitAt (2 ^ e) s'.words k = bitAt (2 ^ e) s.words k :=
+  apply_correct' (2 ^ e) (Nat.two_pow_pos e) s h f st hf
+    (fun hp => isPow2_dvd_two_pow s.bw e hp h.1)
+
+/-- without `hdiv` the statement fails: 12-bit words, width 8, three elements `255`; the identity
+callback is called twice instead of three times and element 1 becomes 240 -/
+example : applyInPlace 12 ⟨#[0xFFF, 0xFFF], 8, 3⟩ (fun (st : Nat) x => (st + 1, x % 256)) 0
+    = .ok (⟨#[255, 4095], 8, 3⟩, 2) := by decide
+
+section NonVacuity
+/-- general path (width 3), stateful callback, spare bits in the last word -/
+example : ∃ s', applyInPlace 8 exSrc (fun (st : Nat) x => (st + x, (x + st) % 8)) 0
+      = .ok (s', (mapAccum (fun (st : Nat) x => (st + x, (x + st) % 8)) (exSrc.vals 8) 0).2) ∧
+    s'.vals 8 = (mapAccum (fun (st : Nat) x => (st + x, (x + st) % 8)) (exSrc.vals 8) 0).1 := by
+  obtain ⟨s', h1, _, _, _, _, h2, _⟩ := apply_correct 8 (by decide) exSrc exSrc_inv
+    (fun (st : Nat) x => (st + x, (x + st) % 8)) 0 (fun _ _ => Nat.mod_lt _ (by decide)) (by decide)
+  exact ⟨s', h1, h2⟩
+end NonVacuity
+
+/-! ## (4) `get_unaligned` -/
+
+/-- `get_unaligned(i)` returns element `i` (the value `get(i)` returns) for every word size that is
+a multiple of 8, under the documented preconditions: admissible width, and the `W/8` bytes starting
+at the byte of the first bit lie inside the backing store (one padding word suffices). -/
+theorem unaligned_eq_get (W : Nat) (h8 : 8 ∣ W) (hW : 0 < W) (s : St) (h : s.Inv W) (i : Nat)
+    (hi : i < s.len) (hadm : s.bw ≤ W - 8 + 2 ∨ s.bw = W - 8 + 4 ∨ s.bw = W)
+    (hpad : (i * s.bw) / 8 + W / 8 ≤ s.words.size * (W / 8)) :
+    getUnaligned W s i = .ok (valAt W s.words s.bw i) :=
+  unaligned_get W h8 hW s h i hi hadm hpad
+
+section NonVacuity
+private def exU : St := { words := #[0xABCD, 0x1234, 0x7F7F, 0x5555, 0x0], bw := 7, len := 9 }
+private theorem exU_inv : exU.Inv 16 := by
+  refine ⟨by decide, by decide, by decide, ?_⟩
+  unfold WordsOK
+  decide
+example : getUnaligned 16 exU 8 = .ok (valAt 16 exU.words exU.bw 8) :=
+  unaligned_eq_get 16 (by decide) (by decide) exU exU_inv 8 (by decide) (Or.inl (by decide))
+    (by decide)
 end NonVacuity
 
 end Sux.BFV
